@@ -2,7 +2,7 @@
 # bin/trymutant.sh <patch.diff> <property> [tier]  — run a property check against a scratch copy of /repo with the patch applied.
 HERE=$(cd "$(dirname "$0")/.." && pwd)
 . "$HERE/bin/env.sh"
-patchf=$1; prop=$2; tier=${3:-quick}
+patchf=$(readlink -f "$1"); prop=$2; tier=${3:-quick}
 dir=$(mktemp -d /var/tmp/sebuf-m.XXXXXX); out=$(mktemp -d /var/tmp/sebuf-o.XXXXXX)
 cp -r /repo/. "$dir"/ && rm -rf "$dir/.git"
 (cd "$dir" && patch -p1 -s < "$patchf") || { echo "patch does not apply"; rm -rf "$dir" "$out"; exit 3; }
